@@ -1,4 +1,5 @@
 #!/bin/sh
+export HCSYM_EVIDENCE_DIR=/tmp/hcsym-scratch-evidence; mkdir -p $HCSYM_EVIDENCE_DIR
 # tools/seeds_regress.sh [pattern] : apply every stored seed to /repo, run the quick check of the properties that
 # are recorded as catching it, revert; print one line per seed. All must say CAUGHT.
 cd /verif
